@@ -99,7 +99,14 @@ Responses0 ==
   \cup {[kind |-> "r_no_more_recent", id |-> "id:a", token |-> t, nodes |-> n, seq |-> s] : t \in {"tok:4", "tok:0"}, n \in Nodes, s \in Seqs}
 Errors0 == {[kind |-> "error", code |-> c, text |-> x] : c \in {"201", "203", "-1", "2147483647", "-2147483648"},
                                                          x \in {"text:empty", "text:generic", "text:utf8"}}
+\* node lists in which ids repeat (at different addresses)
+NodesDup == {"nodesdup:3", "nodesdup:4", "nodesdup:7", "nodesdup:20"}
 Sweeps ==
+       {[kind |-> "r_find_node", id |-> "id:a", nodes |-> n] : n \in NodesDup}
+  \cup {[kind |-> "r_no_values", id |-> "id:a", token |-> "tok:4", nodes |-> n] : n \in NodesDup}
+  \cup {[kind |-> "r_get_mutable", id |-> "id:a", token |-> "tok:4", nodes |-> n, v |-> "v:1", k |-> "k:1", sig |-> "sig:1", seq |-> "1"] : n \in NodesDup}
+  \cup {[kind |-> "r_get_peers", id |-> "id:a", token |-> "tok:4", nodes |-> n, values |-> "values:1"] : n \in NodesDup}
+  \cup
        {[kind |-> "r_find_node", id |-> "id:a", nodes |-> n] : n \in NodesSweep}
   \cup {[kind |-> k, id |-> "id:a", token |-> "tok:4", nodes |-> n] : k \in {"r_no_values"}, n \in NodesSweep}
   \cup {[kind |-> "r_get_immutable", id |-> "id:a", token |-> "tok:4", nodes |-> n, v |-> "v:1"] : n \in NodesSweep}
